@@ -31,9 +31,13 @@ def keepPolys {α : Type} (ps : List (List (List (Pt α)))) : List (List (List (
 def wrapO {α β : Type} (mk : List β → Geom α) (l : List β) : OGeom α :=
   if l.length = 0 then .nil else .geom (mk l)
 
+/-- `collection` + the type switch: no member left ⇒ nil interface -/
+def wrapColl {α : Type} (o : List (OGeom α)) : OGeom α := if o.length = 0 then .nil else .coll o
+
 /-- What the generic `Simplify` returns for a value, member by member.  `L area inp out` is the relation
     between a member vertex list and its result (`area = true` for rings); every input ring / line has
-    a result, and WHICH of them appear in the output is fixed by `keepRings` / `keepPolys`. -/
+    a result, and WHICH of them appear in the output is fixed by `keepRings` / `keepPolys`; EVERY member
+    `i[k]` of a collection has a result `l[k]`, and the output holds exactly the non-nil ones, in order. -/
 inductive ValidOut {α : Type} (L : Bool → List (Pt α) → List (Pt α) → Prop) : Geom α → OGeom α → Prop
   | point (p : Pt α) : ValidOut L (.point p) (.geom (.point p))
   | multiPoint (ps : List (Pt α)) : ValidOut L (.multiPoint ps) (.geom (.multiPoint ps))
@@ -46,18 +50,13 @@ inductive ValidOut {α : Type} (L : Bool → List (Pt α) → List (Pt α) → P
       ValidOut L (.polygon i) (wrapO .polygon (keepRings rs))
   | multiPolygon (i pss : List (List (List (Pt α)))) : List.Forall₂ (List.Forall₂ (L true)) i pss →
       ValidOut L (.multiPolygon i) (wrapO .multiPolygon (keepPolys (pss.map keepRings)))
-  | collection (i : List (Geom α)) (o : List (OGeom α)) : i.length = o.length →
-      (∀ p ∈ i.zip o, ValidOut L p.1 p.2) →
-      ValidOut L (.collection i) (if o.length = 0 then .nil else .coll o)
+  | collection (i : List (Geom α)) (l : List (OGeom α)) : i.length = l.length →
+      (∀ p ∈ i.zip l, ValidOut L p.1 p.2) →
+      ValidOut L (.collection i) (wrapColl (l.filter fun g => !g.isNil))
 
 /-- the member relation of a simplifier: the result of `runSimplify`, which is a valid simplification -/
 def RunRel {α : Type} (s : Simplifier α) (area : Bool) (inp out : List (Pt α)) : Prop :=
   runSimplify s inp area = .ok out ∧ ValidLine inp out
-
-/-- is this result a nil interface? -/
-def OGeom.isNil {α : Type} : OGeom α → Bool
-  | .nil => true
-  | _ => false
 
 /-- structural induction for the nested inductive `OGeom` -/
 theorem OGeom.ind' {α : Type} {motive : OGeom α → Prop}
@@ -340,30 +339,38 @@ theorem wrapLen_eq_ok {β : Type} (mk : List β → Geom α) (r : R (List β)) (
 
 omit [Add α] [Sub α] [Mul α] [Div α] [Neg α] [LT α] [LE α] [DecidableLT α] [DecidableLE α] [BEq α]
   [OfNat α 0] [OfNat α 1] [OfNat α 2] in
-theorem go_ok (s : Simplifier α) : ∀ (gs : List (Geom α)) (l : List (OGeom α)),
-    simplifyG.go s gs = .ok l → gs.length = l.length ∧ ∀ p ∈ gs.zip l, simplifyG s p.1 = .ok p.2 := by
+theorem go_ok (s : Simplifier α) : ∀ (gs : List (Geom α)) (o : List (OGeom α)),
+    simplifyG.go s gs = .ok o → ∃ l, gs.length = l.length ∧ (∀ p ∈ gs.zip l, simplifyG s p.1 = .ok p.2) ∧
+      o = l.filter (fun g => !g.isNil) := by
   intro gs
   induction gs with
   | nil =>
-    intro l h
+    intro o h
     simp only [simplifyG.go] at h
     injection h with h; subst h
-    exact ⟨rfl, by simp⟩
+    exact ⟨[], rfl, by simp, rfl⟩
   | cons g rest ih =>
-    intro l h
+    intro o h
     simp only [simplifyG.go] at h
     split at h
     · rename_i g' hg
       split at h
       · rename_i rest' hrest
-        injection h with h; subst h
-        obtain ⟨h1, h2⟩ := ih rest' hrest
-        refine ⟨by simp [h1], ?_⟩
-        intro p hp
-        simp only [List.zip_cons_cons, List.mem_cons] at hp
-        rcases hp with rfl | hp
-        · exact hg
-        · exact h2 p hp
+        obtain ⟨l, h1, h2, h3⟩ := ih rest' hrest
+        have hmem : ∀ p ∈ (g :: rest).zip (g' :: l), simplifyG s p.1 = .ok p.2 := by
+          intro p hp
+          simp only [List.zip_cons_cons, List.mem_cons] at hp
+          rcases hp with rfl | hp
+          · exact hg
+          · exact h2 p hp
+        refine ⟨g' :: l, by simp [h1], hmem, ?_⟩
+        by_cases hn : g'.isNil = true
+        · rw [if_pos hn] at h
+          injection h with h; subst h
+          simp [List.filter_cons, hn, h3]
+        · rw [if_neg hn] at h
+          injection h with h; subst h
+          simp [List.filter_cons, hn, h3]
       · cases h
       · cases h
     · cases h
@@ -429,10 +436,11 @@ theorem simplifyG_good' (s : Simplifier α) (hs : GoodS s) :
   · intro gs ih o h
     simp only [simplifyG] at h
     split at h
-    · rename_i l hl
-      obtain ⟨h1, h2⟩ := go_ok s gs l hl
-      have ho : o = if l.length = 0 then OGeom.nil else OGeom.coll l := by
-        by_cases hz : l.length = 0
+    · rename_i k hk
+      obtain ⟨l, h1, h2, rfl⟩ := go_ok s gs k hk
+      have ho : o = wrapColl (l.filter fun g => !g.isNil) := by
+        unfold wrapColl
+        by_cases hz : (l.filter fun g => !g.isNil).length = 0
         · rw [if_pos hz] at h ⊢; injection h with h; exact h.symm
         · rw [if_neg hz] at h ⊢; injection h with h; exact h.symm
       rw [ho]
@@ -573,7 +581,7 @@ theorem simplifyO_total' : ∀ v : OGeom α, (simplifyO s v).isOk = true := by
         obtain ⟨g', hg'⟩ := (isOk_iff _).1 (ih g (by simp))
         obtain ⟨rest', hrest⟩ := (isOk_iff _).1 (ihr (fun x hx => ih x (by simp [hx])))
         simp only [simplifyO.go, hg', hrest]
-        rfl
+        split <;> rfl
     obtain ⟨l, hl⟩ := (isOk_iff _).1 hgo
     simp only [simplifyO, hl]
     split <;> rfl
